@@ -3993,3 +3993,435 @@ func ruleSizeBoundsIn64Bits(r *Run) {
 	}
 	r.check(n >= 1, "dvid:length-products-in-comparisons", fmt.Sprintf("%d", n), "none found: rule needs review", "-")
 }
+
+// ---------------------------------------------------------------------------------------------
+// Round f, fifth batch (C09, C17, C18)
+
+func init() {
+	register(ruleDef{ID: "R9.12", Prop: "C09", Tier: "quick", Floor: 3,
+		Title: "each header field holds the sub-block count of its own axis: in the labels package, a 32-bit value written at byte offset 4·k (k = 0, 1, 2) of a block's data that is computed from a component of the block size is computed from component k",
+		Fn:    ruleHeaderFieldOwnAxis})
+	register(ruleDef{ID: "R9.13", Prop: "C09", Tier: "quick", Floor: 2,
+		Title: "a cursor into the sub-block index list passes the whole list of a sub-block: in the labels package, a loop that advances a cursor used to index SBIndices by one per iteration is left only through its own counting condition (a break on a match would leave the cursor inside the list, and every later sub-block is read from the wrong place)",
+		Fn:    ruleIndexCursorPassesWholeList})
+	register(ruleDef{ID: "R17.12", Prop: "C17", Tier: "quick", Floor: 6,
+		Title: "every term of a byte offset is in bytes: in imageblk functions that ask for the bytes per voxel, each additive term of an offset used to slice a byte buffer depends on the bytes-per-voxel value or on the buffer's byte stride — a bare voxel coordinate in the sum addresses the wrong bytes for every type wider than one byte",
+		Fn:    ruleByteOffsetTermsInBytes})
+	register(ruleDef{ID: "R17.13", Prop: "C17", Tier: "quick", Floor: 1,
+		Title: "an ROI that was asked for is never silently dropped: roi.NewIterator hands out a nil iterator only together with a non-nil error (the voxel readers and writers take a nil iterator for 'no ROI given' and then touch everything)",
+		Fn:    ruleNoNilIteratorWithoutError})
+	register(ruleDef{ID: "R18.16", Prop: "C18", Tier: "quick", Floor: 1,
+		Title: "every run that was announced is read: in the dvid package's run-length readers the loop over the runs is bounded by the decoded count itself, not by a value that was clamped to the pre-allocation limit",
+		Fn:    ruleRunLoopBoundIsDecodedCount})
+	register(ruleDef{ID: "R18.17", Prop: "C18", Tier: "quick", Floor: 1,
+		Title: "a clipped run is clipped from its current start: in RLEs.FitToBounds no value loaded from the run's start or length before a store into that same component is used after that store",
+		Fn:    ruleNoStaleComponentAfterStore})
+}
+
+func ruleHeaderFieldOwnAxis(r *Run) {
+	w := r.W
+	n := 0
+	for _, f := range w.RepoFuncs {
+		if relPkg(pkgPathOf(f)) != "datatype/common/labels" || len(f.Blocks) == 0 || isTestFunc(w, f) {
+			continue
+		}
+		for _, c := range calls(f) {
+			cc := c.Common()
+			if !(cc.IsInvoke() && cc.Method.Name() == "PutUint32") {
+				if callee := staticCallee(c); callee == nil || callee.Name() != "PutUint32" {
+					continue
+				}
+			}
+			args := cc.Args
+			if len(args) < 2 {
+				continue
+			}
+			sl, ok := args[len(args)-2].(*ssa.Slice)
+			if !ok || sl.Low == nil && sl.High == nil {
+				continue
+			}
+			var lo int64
+			if sl.Low != nil {
+				l, ok := constInt(sl.Low)
+				if !ok {
+					continue
+				}
+				lo = l
+			}
+			if lo != 0 && lo != 4 && lo != 8 {
+				continue
+			}
+			// the component of a Point3d the value is computed from
+			axis := int64(-1)
+			multi := false
+			for d := range dataDeps(args[len(args)-1]) {
+				var idx ssa.Value
+				var base ssa.Value
+				switch x := d.(type) {
+				case *ssa.Index:
+					idx, base = x.Index, x.X
+				case *ssa.UnOp:
+					if ia, ok := x.X.(*ssa.IndexAddr); ok {
+						idx, base = ia.Index, ia.X
+					}
+				}
+				if idx == nil || !strings.Contains(base.Type().String(), "Point3d") {
+					continue
+				}
+				if k, ok := constInt(idx); ok {
+					if axis >= 0 && axis != k {
+						multi = true
+					}
+					axis = k
+				}
+			}
+			if axis < 0 || multi {
+				continue
+			}
+			n++
+			r.check(axis == lo/4, fmt.Sprintf("%s:header-field@%d:own-axis", fname(f), lo), "computed from the block size's component of the same axis",
+				fmt.Sprintf("the header field at byte %d (axis %d) is computed from component %d of the block size: the serialised block of a non-cubic solid block re-parses with the wrong shape", lo, lo/4, axis), w.pos(c.Pos()))
+		}
+	}
+	r.check(n >= 3, "labels:header-fields-from-block-size", fmt.Sprintf("%d", n), "fewer than expected: rule needs review", "-")
+}
+
+func ruleIndexCursorPassesWholeList(r *Run) {
+	w := r.W
+	n := 0
+	for _, f := range w.RepoFuncs {
+		if relPkg(pkgPathOf(f)) != "datatype/common/labels" || len(f.Blocks) == 0 || isTestFunc(w, f) {
+			continue
+		}
+		loops := naturalLoops(f)
+		k := 0
+		done := map[*ssa.BasicBlock]bool{}
+		for _, b := range f.Blocks {
+			for _, in := range b.Instrs {
+				ia, ok := in.(*ssa.IndexAddr)
+				if !ok || !isFieldLoad(ia.X, "Block", "SBIndices") {
+					continue
+				}
+				// the innermost loop containing the access in which the cursor advances by one
+				h, set, _ := innermostLoop(f, b)
+				if set == nil || done[h] {
+					continue
+				}
+				cursor := ia.Index
+				advances := false
+				for blk := range set {
+					for _, x := range blk.Instrs {
+						// cursor kept in a local: *c = *c + 1
+						if st, ok := x.(*ssa.Store); ok {
+							if bo, ok := st.Val.(*ssa.BinOp); ok && bo.Op == token.ADD {
+								if one, ok := constInt(bo.Y); ok && one == 1 {
+									if u, ok := bo.X.(*ssa.UnOp); ok && u.X == st.Addr {
+										if cu, ok := cursor.(*ssa.UnOp); ok && cu.X == st.Addr {
+											advances = true
+										}
+									}
+								}
+							}
+						}
+						if phi, ok := x.(*ssa.Phi); ok && ssa.Value(phi) == cursor {
+							for _, e := range phi.Edges {
+								if bo, ok := e.(*ssa.BinOp); ok && bo.Op == token.ADD && bo.X == ssa.Value(phi) {
+									if one, ok := constInt(bo.Y); ok && one == 1 {
+										advances = true
+									}
+								}
+							}
+						}
+					}
+				}
+				if !advances {
+					continue
+				}
+				// the loop counts something else (i < numSBLabels): the cursor is not the loop's own counter
+				ownCounter := false
+				if ifi, ok := h.Instrs[len(h.Instrs)-1].(*ssa.If); ok {
+					if bo, ok := ifi.Cond.(*ssa.BinOp); ok && (bo.X == cursor) {
+						ownCounter = true
+					}
+				}
+				if ownCounter {
+					continue
+				}
+				done[h] = true
+				n++
+				k++
+				exits := 0
+				where := ""
+				for blk := range set {
+					for _, s := range blk.Succs {
+						if !set[s] && blk != h {
+							exits++
+							where = w.pos(blk.Instrs[len(blk.Instrs)-1].Pos())
+						}
+					}
+				}
+				_ = loops
+				r.check(exits == 0, fmt.Sprintf("%s:index-cursor-loop#%d:single-exit", fname(f), k), "the loop is left only through its counting condition",
+					"the loop that walks a sub-block's index list can be left from its body ("+where+"): the cursor stops inside the list, and the indices and packed values of every later sub-block are read from the wrong position — per-label voxel counts come out wrong", w.pos(ia.Pos()))
+			}
+		}
+	}
+	r.check(n >= 2, "labels:index-cursor-loops", fmt.Sprintf("%d", n), "fewer than expected: rule needs review", "-")
+}
+
+func addLeaves(v ssa.Value, seen map[ssa.Value]bool, out *[]ssa.Value) {
+	if seen[v] {
+		return
+	}
+	seen[v] = true
+	switch x := v.(type) {
+	case *ssa.BinOp:
+		if x.Op == token.ADD {
+			addLeaves(x.X, seen, out)
+			addLeaves(x.Y, seen, out)
+			return
+		}
+	case *ssa.Phi:
+		for _, e := range x.Edges {
+			addLeaves(e, seen, out)
+		}
+		return
+	}
+	*out = append(*out, v)
+}
+
+func ruleByteOffsetTermsInBytes(r *Run) {
+	w := r.W
+	n := 0
+	for _, f := range w.RepoFuncs {
+		if relPkg(pkgPathOf(f)) != "datatype/imageblk" || len(f.Blocks) == 0 || isTestFunc(w, f) {
+			continue
+		}
+		var unit []ssa.Value
+		for _, c := range calls(f) {
+			nm := methodNameOf(c)
+			if nm == "BytesPerElement" || nm == "Stride" {
+				if v, ok := c.(ssa.Value); ok {
+					unit = append(unit, v)
+				}
+			}
+		}
+		if len(unit) == 0 {
+			continue
+		}
+		inBytes := func(v ssa.Value) bool {
+			if c, ok := v.(*ssa.Const); ok {
+				_ = c
+				return true
+			}
+			for d := range dataDeps(v) {
+				for _, u := range unit {
+					if d == u {
+						return true
+					}
+				}
+			}
+			return false
+		}
+		k := 0
+		seenLow := map[ssa.Value]bool{}
+		for _, b := range f.Blocks {
+			for _, in := range b.Instrs {
+				sl, ok := in.(*ssa.Slice)
+				if !ok || sl.Low == nil || seenLow[sl.Low] {
+					continue
+				}
+				st, ok := sl.X.Type().Underlying().(*types.Slice)
+				if !ok || !types.Identical(st.Elem(), types.Typ[types.Uint8]) {
+					continue
+				}
+				seenLow[sl.Low] = true
+				var leaves []ssa.Value
+				addLeaves(sl.Low, map[ssa.Value]bool{}, &leaves)
+				if len(leaves) < 2 {
+					continue
+				}
+				n++
+				k++
+				bad := ""
+				for _, lf := range leaves {
+					if !inBytes(lf) {
+						bad = lf.Name() + " (" + w.pos(lf.Pos()) + ")"
+					}
+				}
+				r.check(bad == "", fmt.Sprintf("%s:byte-offset#%d:terms-in-bytes", fname(f), k), "every additive term depends on the bytes per voxel or the byte stride",
+					"the byte offset has a term "+bad+" that is a voxel count, not a byte count: for 16-bit and wider voxels the slice addresses the wrong bytes (8-bit data hides it)", w.pos(sl.Pos()))
+			}
+		}
+	}
+	r.check(n >= 6, "imageblk:byte-offsets", fmt.Sprintf("%d", n), "fewer than expected: rule needs review", "-")
+}
+
+func ruleNoNilIteratorWithoutError(r *Run) {
+	w := r.W
+	f := w.fn("datatype/roi", "NewIterator")
+	if f == nil {
+		r.undecided("roi.NewIterator", "anchor not found")
+		return
+	}
+	n := 0
+	for _, b := range f.Blocks {
+		ret, ok := b.Instrs[len(b.Instrs)-1].(*ssa.Return)
+		if !ok || len(ret.Results) != 2 {
+			continue
+		}
+		n++
+		if !isNilConst(ret.Results[0]) {
+			r.check(true, fmt.Sprintf("NewIterator:return#%d", n), "hands out an iterator", "", w.pos(ret.Pos()))
+			continue
+		}
+		errv := ret.Results[1]
+		good := false
+		if _, isCall := errv.(*ssa.Call); isCall {
+			good = true // a freshly made error
+		}
+		if mi, isMI := errv.(*ssa.MakeInterface); isMI {
+			_ = mi
+			good = true
+		}
+		for _, b2 := range f.Blocks {
+			ifi, isIf := b2.Instrs[len(b2.Instrs)-1].(*ssa.If)
+			if !isIf {
+				continue
+			}
+			bo, isBo := ifi.Cond.(*ssa.BinOp)
+			if !isBo || !isNilConst(bo.Y) || !sameRoots(bo.X, errv, f) && bo.X != errv {
+				continue
+			}
+			succ := 0
+			if bo.Op == token.EQL {
+				succ = 1
+			}
+			if guardedByEdge(ifi, succ, ret) {
+				good = true
+			}
+		}
+		r.check(good, fmt.Sprintf("NewIterator:return#%d:nil-iterator-only-with-error", n), "a nil iterator is returned only with an error known to be non-nil",
+			"NewIterator can return a nil iterator with a nil error: PutVoxels and GetVoxels take a nil iterator for 'no ROI was given' — a write restricted to an ROI whose spans do not reach the request's Z range then changes every voxel of the box", w.pos(ret.Pos()))
+	}
+	r.check(n >= 1, "NewIterator:returns", fmt.Sprintf("%d", n), "no return found: rule needs review", w.fpos(f))
+}
+
+func ruleRunLoopBoundIsDecodedCount(r *Run) {
+	w := r.W
+	n := 0
+	for _, f := range w.RepoFuncs {
+		if relPkg(pkgPathOf(f)) != "dvid" || len(f.Blocks) == 0 || isTestFunc(w, f) || !strings.HasPrefix(f.Name(), "UnmarshalBinary") {
+			continue
+		}
+		if f.Signature.Recv() == nil || !strings.Contains(f.Signature.Recv().Type().String(), "RLEs") {
+			continue
+		}
+		for _, b := range f.Blocks {
+			ifi, ok := b.Instrs[len(b.Instrs)-1].(*ssa.If)
+			if !ok {
+				continue
+			}
+			bo, ok := ifi.Cond.(*ssa.BinOp)
+			if !ok || bo.Op != token.LSS {
+				continue
+			}
+			if _, isPhi := bo.X.(*ssa.Phi); !isPhi {
+				continue
+			}
+			if _, set, _ := innermostLoop(f, b); set == nil {
+				continue
+			}
+			n++
+			clamped := false
+			var walk func(v ssa.Value, d int)
+			walk = func(v ssa.Value, d int) {
+				if d > 6 {
+					return
+				}
+				switch x := v.(type) {
+				case *ssa.Phi:
+					for _, e := range x.Edges {
+						if _, isC := e.(*ssa.Const); isC {
+							clamped = true
+						}
+						walk(e, d+1)
+					}
+				case *ssa.Convert:
+					walk(x.X, d+1)
+				}
+			}
+			walk(bo.Y, 0)
+			r.check(!clamped, fmt.Sprintf("%s:run-loop-bound", fname(f)), "the loop runs up to the decoded count",
+				"the loop over the runs is bounded by a value that can be a constant limit instead of the decoded count: a sparse volume with more runs than the limit is silently cut short, with no error", w.pos(bo.Pos()))
+		}
+	}
+	r.check(n >= 1, "dvid:run-loops", fmt.Sprintf("%d", n), "none found: rule needs review", "-")
+}
+
+func ruleNoStaleComponentAfterStore(r *Run) {
+	w := r.W
+	f := w.method("dvid", "RLEs", "FitToBounds")
+	if f == nil {
+		r.undecided("dvid.RLEs.FitToBounds", "anchor not found")
+		return
+	}
+	n := 0
+	bad := ""
+	for _, b := range f.Blocks {
+		for _, in := range b.Instrs {
+			ld, ok := in.(*ssa.UnOp)
+			if !ok || ld.Op != token.MUL {
+				continue
+			}
+			key := componentKey(ld.X)
+			if !strings.Contains(key, "start") && !strings.Contains(key, "length") {
+				continue
+			}
+			// stores to the same place after the load
+			for _, b2 := range f.Blocks {
+				for _, x := range b2.Instrs {
+					st, ok := x.(*ssa.Store)
+					if !ok || componentKey(st.Addr) != key {
+						continue
+					}
+					if findPath(f, ld, nil, func(y ssa.Instruction) bool { return y == ssa.Instruction(st) }, nil) == nil {
+						continue
+					}
+					n++
+					// a use of the loaded value reachable from the store (other than the store's own operand)
+					for _, ref := range *ld.Referrers() {
+						if ref == ssa.Instruction(st) {
+							continue
+						}
+						// the value feeding the store itself (x - (min - x)) is computed before it
+						if rv, ok := ref.(ssa.Value); ok && dataDeps(st.Val)[rv] {
+							continue
+						}
+						if findPath(f, st, nil, func(y ssa.Instruction) bool { return y == ref }, nil) != nil {
+							// in a loop every instruction reaches every other through the back edge: demand that the
+							// use is reached without passing the load again
+							p := findPath(f, st, func(y ssa.Instruction) bool { return y == ssa.Instruction(ld) }, func(y ssa.Instruction) bool { return y == ref }, nil)
+							if p != nil {
+								bad = fmt.Sprintf("%s loaded at %s, stored at %s, used at %s", key, w.pos(ld.Pos()), w.pos(st.Pos()), w.pos(ref.Pos()))
+							}
+						}
+					}
+				}
+			}
+		}
+	}
+	r.check(bad == "", "FitToBounds:no-stale-component", fmt.Sprintf("%d load/store pairs examined", n),
+		"a component of the run read before it was changed is used after the change ("+bad+"): a run clipped on both X bounds keeps a length computed from its old start and reaches past the upper bound", w.fpos(f))
+	r.check(n >= 1, "FitToBounds:load-store-pairs", fmt.Sprintf("%d", n), "none found: rule needs review", w.fpos(f))
+}
+
+// componentKey: access path of an address, with constant array indexes spelled out.
+func componentKey(v ssa.Value) string {
+	if ia, ok := v.(*ssa.IndexAddr); ok {
+		if k, isC := constInt(ia.Index); isC {
+			return fmt.Sprintf("%s[%d]", componentKey(ia.X), k)
+		}
+	}
+	return addrKey(v)
+}
